@@ -198,6 +198,26 @@ EXTRA = [
 ]
 
 
+def argument_forms():
+    """Every way of writing the arguments of the three library constructors: k positional arguments (none … one too many)
+    followed by any subset of the parameter names (and an unknown one) as keywords — including a parameter given both by
+    position and by name, which Python rejects when the call runs."""
+    import itertools
+    values = {"Party": {"name": "'N'"}, "Input": {"name": "'i'", "party": "p"}, "Output": {"value": "a", "name": "'o'", "party": "p"}}
+    out = []
+    for ctor, params in values.items():
+        names = list(params)
+        for k in range(len(names) + 2):
+            pos = [params[nm] for nm in names[:k]] + (["p"] if k > len(names) else [])
+            for r in range(len(names) + 2):
+                for kws in itertools.combinations(names + ["bogus"], r):
+                    args = ", ".join(pos + [f"{kw}={params.get(kw, 'p')}" for kw in kws])
+                    use = {"Party": "    z = [x]\n", "Input": "    z = SecretInteger(x)\n", "Output": "    z = [x]\n"}[ctor]
+                    out.append("from nada_dsl import *\ndef nada_main():\n    p = Party(name='P')\n    a = SecretInteger(Input(name='a', party=p))\n"
+                               f"    x = {ctor}({args})\n{use}    return [Output(a, 'out', p)]\n")
+    return out
+
+
 def literal_conditions(rng, src):
     """add conditionals on literal comparisons (the abstract interpreter knows their value)"""
     if "return [" not in src or rng.random() < 0.5:
@@ -235,7 +255,7 @@ def run(res, tier):
     n = 250 if tier == "quick" else 8000
     evals, nontrivial, nclean, nrec = 0, set(), 0, 0
     samples = []
-    sources = [("extra", s) for s in EXTRA]
+    sources = [("extra", s) for s in EXTRA] + [("argument-forms", s) for s in argument_forms()]
     # every near-miss statement of the list at least once (the list is walked cyclically; some programs use a helper instead)
     for _ in range(int(len(pysrc.NEAR_MISS) * 4.5)):
         mode, src = pysrc.generate(rng, mode="nearmiss")
